@@ -5,6 +5,7 @@ import (
 	"encoding/base64"
 
 	p2pcrypto "github.com/libp2p/go-libp2p/core/crypto"
+	"golang.org/x/crypto/curve25519"
 	"golang.org/x/crypto/nacl/box"
 
 	"berty.tech/weshnet/v2/pkg/cryptoutil"
@@ -18,6 +19,9 @@ var (
 	nonceRequesterAuthenticate = [cryptoutil.NonceSize]byte{1}
 	nonceResponderAccept       = [cryptoutil.NonceSize]byte{2}
 )
+
+// lowOrderProbeScalar is only used to detect low-order peer ephemeral keys
+var lowOrderProbeScalar = [cryptoutil.KeySize]byte{1}
 
 // Common struct and methods
 type handshakeContext struct {
@@ -91,6 +95,14 @@ func (hc *handshakeContext) receivePeerEphemeralPubKey() error {
 	hc.peerEphemeral, err = cryptoutil.KeySliceToArray(hello.EphemeralPubKey)
 	if err != nil {
 		return errcode.ErrCode_ErrSerialization.Wrap(err)
+	}
+
+	// Refuse low-order points: with such a key the shared secret would be the
+	// same all-zero value in every session, whatever our own ephemeral key is,
+	// and the proofs signed over it could be replayed.
+	// X25519 fails exactly when its output is all-zero, for any clamped scalar.
+	if _, err := curve25519.X25519(lowOrderProbeScalar[:], hc.peerEphemeral[:]); err != nil {
+		return errcode.ErrCode_ErrInvalidInput.Wrap(err)
 	}
 
 	return nil
